@@ -22,8 +22,11 @@ TExchange == IsOp("exchange") /\ Chk(Ev.xa = 1 /\ Ev.xb = 1 /\ Ev.rc1a = 1 /\ Ev
 (* key extraction: the key GM/T 0044 defines -- and no key at all for the one master secret per identity with t1 = H1(ID||hid) + ks = 0 (mod N) *)
 TExtract == (IsOp("sign_extract") \/ IsOp("enc_extract") \/ IsOp("exch_extract"))
             /\ Chk(IF Ev.t1zero THEN Ev.xrc # 1 ELSE Ev.xrc = 1 /\ Ev.key = Ev.refkey)
+(* many encapsulations / exchanges with a one-octet key (about one in 256 has to draw a second nonce because an all-zero key is not output): in every one of *)
+(* them both sides hold the same key                                                                                                                           *)
+TLoop == (IsOp("kemloop") \/ IsOp("exchloop")) /\ Chk(Ev.xrc = 1 /\ Ev.rcbad = 0 /\ Ev.agree = Ev.trials)
 TReset == l <= Len(TraceLog) /\ Ev.e = "Reset" /\ l' = l + 1
-Next == TSign \/ TVerify \/ TEncrypt \/ TDecrypt \/ TExchange \/ TExtract \/ TReset
+Next == TSign \/ TVerify \/ TEncrypt \/ TDecrypt \/ TExchange \/ TExtract \/ TLoop \/ TReset
 Spec == Init /\ [][Next]_l
 Accepted == LET d == TLCGet("stats").diameter IN IF d - 1 = Len(TraceLog) THEN TRUE ELSE PrintT(<<"REJECTED", d, TraceLog[d].e>>) /\ FALSE
 =============================================================================
